@@ -24,12 +24,16 @@ def make_scenarios(ctx, count):
     for i in range(count):
         rng = G.rng_for(ctx.seed, "C08", i)
         mtu = rng.choice([576, 577, 1500, 9216, rng.randint(576, 9216)])
-        P = mtu - 34
+        if i % 16 == 5:
+            mtu = rng.choice([16383 + 34, 16384 + 34, 16385 + 34] + G.MTUS_HUGE)      # a chunk can be longer than the 14-bit length field
+        P = min(mtu - 34, 0x3FFF)
         cfg = G.rand_cfg(rng, mtu=mtu)
         net = G.Net(rng, cfg["mac"])
         k = rng.choice([1, 2, 3, 5, 8])
         size = rng.choice([0, 1, P - 1, P, P + 1, k * P - 1, k * P, k * P + 1, 32767, 32768, rng.randint(0, 32768)])
         size = max(0, min(32768, size))
+        if mtu > 9216:
+            size = rng.choice([16383, 16384, 16385, 20000, 32767, 32768, 40000, 50000, 65535])
         glob = G.rand_global(rng, icon_size=size)
         # friendly name / hardware id of interesting sizes too
         glob["fname"] = W.fill_stream(rng.choice([0, 2, 64, P - 1, P, P + 1, 2 * P + 1, 3000]), rng.randint(1, 10 ** 6)) \
@@ -127,7 +131,7 @@ def make_scenarios(ctx, count):
                 s.add("MTU 0 %d %d" % (mtu2, cfg["rxseed"]))
                 mtu_at = len(reqs)
                 g_now = globs[-1]
-                P2 = mtu2 - 34
+                P2 = min(mtu2 - 34, 0x3FFF)
                 for typ in rng.sample([0x0E, 0x11, 0x13], rng.randint(1, 3)):
                     d = data_for(g_now, typ)
                     off = 0
